@@ -14,7 +14,8 @@ RULE = ("per API (offsets, list-offsets v1, fetch, produce, offset fetch v0/v1, 
         "0..5 (sometimes 12/40) and null arrays, i16/i32/i64 extremes, names from {null, empty, ASCII, 2-, 3- and 4-byte UTF-8, 300 "
         "bytes}, message sets plain / one gzip or snappy wrapper / empty / null with null and empty keys and values; the call talks to "
         "1-3 brokers (each gets the body); plus unmutated clusters with arbitrary broker ids/hosts/ports, offsets by time, log starts, "
-        "committed offsets and shuffled listing order where every broker answers with different content; a fixed set of 4 offset-fetch "
+        "committed offsets and shuffled listing order where every broker answers with different content; two compressed batches inflating to "
+        "9..12 MiB (judged by the oracle alone, the model does not evaluate them); a fixed set of 4 offset-fetch "
         "replies naming a topic twice; non-trivial = the replies of some call carry at least two topics or two partitions, or a "
         "boundary value (null/empty array or name, extreme integer, multi-byte name)")
 ASSUMPTIONS = ["kproto.encode_response / parse_response are an independent reading of the response grammar (golden layouts in its self-test)",
@@ -423,6 +424,8 @@ def nontrivial(case, recs):
 
 def stats(case, recs):
     s = {"family:" + case["meta"]["family"]: 1}
+    if any(r.get("impl_only") for r in recs):
+        s["calls judged by the oracle alone (not evaluated by the model)"] = sum(1 for r in recs if r.get("impl_only"))
     s.update(evaluate(case, recs)[1])
     for rec in recs:
         n = rec["op"].name
@@ -842,6 +845,24 @@ WEIGHT = {"offsets": 100, "list_offsets": 90, "fetch": 150, "produce": 90, "offs
           "group_coordinator": 30}
 
 
+def case_big_batch(rng, codec):
+    """one compressed batch that inflates to 9..12 MiB (compressible records of 256..768 KiB; a few dozen KiB on the wire): every message of
+    it must come back. The call is run on the implementation only (see caselib `impl_only`): the oracle compares the result with the
+    reply as for every other fetch."""
+    g = G(rng, "big-batch")
+    g.bounds.add("inflated-over-8MiB")
+    total, recs, off = rng.randint(9, 12) << 20, [], rng.randint(0, 50)
+    while total > 0:
+        n = rng.randint(256, 768) << 10
+        unit = rand_bytes(rng, 3, 40)
+        recs.append(("plain", off, None if off % 3 else b"k%d" % off, (unit * (n // len(unit) + 1))[:n]))
+        off += 1
+        total -= n
+    spec = {"brokers": brokers(1), "topics": {b"big": [1]}, "logs": {(b"big", 0): [("wrap", codec, recs[-1][1], recs)]}}
+    ops = boot_ops(spec) + [{"op": T("fetch_messages", [[fp(b"big", 0, recs[0][1], 32 << 20)]]), "impl_only": True}]
+    return finish(g, spec, ops)
+
+
 def gen(rng, tier):
     scale = 1 if tier == "quick" else 40
     cases = []
@@ -851,4 +872,6 @@ def gen(rng, tier):
     for _ in range(120 * scale):
         cases.append(case_natural(rng))
     cases += cases_dup_topic(rng)
+    for codec in (["gzip", "snappy"] if tier == "quick" else ["gzip", "snappy"] * 4):
+        cases.append(case_big_batch(rng, codec))
     return cases
